@@ -234,10 +234,11 @@ func (l *lexer) Lex(lval *yySymType) (tokenType int) {
 		return tok
 	default:
 		if ch >= utf8.RuneSelf {
-			r, size := utf8.DecodeRuneInString(l.source[l.offset-1:])
+			_, size := utf8.DecodeRuneInString(l.source[l.offset-1:])
 			// -1 to adjust for first byte consumed by next()
 			l.offset += size - 1
-			l.token = string(r)
+			// not string(r), to keep an invalid byte as it is for the offset
+			l.token = l.source[l.offset-size : l.offset]
 		}
 	}
 	return int(ch)
